@@ -7,46 +7,47 @@
    optional CR; a blank line ends the head) H is exactly one head.  crlf_terminated H: the header block
    after the first line is exactly CRLF, or ends in CRLF CRLF.
 
-   FULL STATEMENT of the property (false of the code, see the _refuted theorems):
+   FULL STATEMENT of the property:
      forall H S1 S2, HeadComplete H -> parse (H ++ S1) = parse (H ++ S2)      and
      forall H,       HeadComplete H -> parse H <> NeedMore.
-   Proved here: both under the guard crlf_terminated H; the guard is exact (outside it a complete head
-   whose first line parses IS answered NeedMore); "consumed = |H|" holds with no guard. *)
+   REQUEST side (since fix f7a0f16: RequestHeader.parseHeaders decides from the block readRawHeaders delimited):
+   both are proved at FULL strength, no guard.
+   RESPONSE side (ResponseHeader.parseHeaders still searches the whole buffer for CRLFCRLF): both are false
+   (see the _refuted theorems, finding key=bareLF-blank-line-terminator); proved under the guard
+   crlf_terminated H, and the guard is exact.  "consumed = |H|" holds on both sides with no guard. *)
 From FH Require Import Model.Base Model.Lines Model.ReqHead Model.RespHead Spec.HeadSpec
   Proof.HeadLocalProof Proof.HeadTotalProof.
 Open Scope nat_scope.
 
-(* ---- head-local, under the guard ---- *)
-Theorem C09_req_head_local_guarded : forall cfg H S1 S2,
-  HeadComplete H -> crlf_terminated H = true ->
-  req_head_parse cfg (H ++ S1) = req_head_parse cfg (H ++ S2).
+(* ---- requests: full strength ---- *)
+Theorem C09_req_head_local : forall cfg H S1 S2,
+  HeadComplete H -> req_head_parse cfg (H ++ S1) = req_head_parse cfg (H ++ S2).
 Proof. exact req_head_local. Qed.
-Print Assumptions C09_req_head_local_guarded.
+Print Assumptions C09_req_head_local.
 
+Theorem C09_req_no_wait : forall cfg H, HeadComplete H -> req_head_parse cfg H <> HNeedMore.
+Proof. exact req_no_wait. Qed.
+Print Assumptions C09_req_no_wait.
+
+(* the same at the level of Read over a bufio.Reader whose buffer holds the head: the result does not depend on
+   what follows the head nor on how the source ends *)
+Theorem C09_req_read_local : forall cfg bsize H S final final',
+  HeadComplete H -> length H <= bsize ->
+  req_read cfg bsize (H ++ S) final = req_read cfg bsize H final'.
+Proof. exact req_read_local. Qed.
+Print Assumptions C09_req_read_local.
+
+(* ---- responses: under the guard ---- *)
 Theorem C09_resp_head_local_guarded : forall cfg H S1 S2,
   HeadComplete H -> crlf_terminated H = true ->
   resp_head_parse cfg (H ++ S1) = resp_head_parse cfg (H ++ S2).
 Proof. exact resp_head_local. Qed.
 Print Assumptions C09_resp_head_local_guarded.
 
-(* ---- no waiting, under the guard ---- *)
-Theorem C09_req_no_wait_guarded : forall cfg H,
-  HeadComplete H -> crlf_terminated H = true -> req_head_parse cfg H <> HNeedMore.
-Proof. exact req_no_wait. Qed.
-Print Assumptions C09_req_no_wait_guarded.
-
 Theorem C09_resp_no_wait_guarded : forall cfg H,
   HeadComplete H -> crlf_terminated H = true -> resp_head_parse cfg H <> HNeedMore.
 Proof. exact resp_no_wait. Qed.
 Print Assumptions C09_resp_no_wait_guarded.
-
-(* ---- the same at the level of Read over a bufio.Reader whose buffer holds the head: the result does not
-        depend on what follows the head nor on how the source ends ---- *)
-Theorem C09_req_read_local_guarded : forall cfg bsize H S final final',
-  HeadComplete H -> crlf_terminated H = true -> length H <= bsize ->
-  req_read cfg bsize (H ++ S) final = req_read cfg bsize H final'.
-Proof. exact req_read_local. Qed.
-Print Assumptions C09_req_read_local_guarded.
 
 Theorem C09_resp_read_local_guarded : forall cfg bsize H S final final',
   HeadComplete H -> crlf_terminated H = true -> length H <= bsize ->
@@ -65,16 +66,7 @@ Theorem C09_resp_consumed_is_head : forall cfg H S hd n,
 Proof. exact resp_consumed_is_head. Qed.
 Print Assumptions C09_resp_consumed_is_head.
 
-(* ---- the unguarded statements are FALSE of the code (finding key=bareLF-blank-line-terminator) ---- *)
-Theorem C09_req_head_local_refuted : exists H S1 S2,
-  HeadComplete H /\ req_head_parse default_cfg (H ++ S1) <> req_head_parse default_cfg (H ++ S2).
-Proof. exact req_head_local_refuted. Qed.
-Print Assumptions C09_req_head_local_refuted.
-
-Theorem C09_req_no_wait_refuted : exists H, HeadComplete H /\ req_head_parse default_cfg H = HNeedMore.
-Proof. exact req_no_wait_refuted. Qed.
-Print Assumptions C09_req_no_wait_refuted.
-
+(* ---- responses: the unguarded statements are FALSE of the code (finding key=bareLF-blank-line-terminator) ---- *)
 Theorem C09_resp_head_local_refuted : exists H S1 S2,
   HeadComplete H /\ resp_head_parse default_cfg (H ++ S1) <> resp_head_parse default_cfg (H ++ S2).
 Proof. exact resp_head_local_refuted. Qed.
@@ -84,14 +76,8 @@ Theorem C09_resp_no_wait_refuted : exists H, HeadComplete H /\ resp_head_parse d
 Proof. exact resp_no_wait_refuted. Qed.
 Print Assumptions C09_resp_no_wait_refuted.
 
-(* ---- the guard is exact: a complete head outside it is answered NeedMore, unless its first line is
-        already rejected (and then it is rejected the same way whatever follows) ---- *)
-Theorem C09_req_guard_exact : forall cfg H,
-  HeadComplete H -> crlf_terminated H = false ->
-  req_head_parse cfg H = HNeedMore \/ exists e, forall S, req_head_parse cfg (H ++ S) = HErr e.
-Proof. exact req_guard_exact. Qed.
-Print Assumptions C09_req_guard_exact.
-
+(* the response guard is exact: a complete head outside it is answered NeedMore, unless its first line is already
+   rejected (and then it is rejected the same way whatever follows) *)
 Theorem C09_resp_guard_exact : forall cfg H,
   HeadComplete H -> crlf_terminated H = false ->
   resp_head_parse cfg H = HNeedMore \/ exists e, forall S, resp_head_parse cfg (H ++ S) = HErr e.
@@ -104,16 +90,20 @@ Definition crlf := [CR; LF].
 Definition ex_head : bytes :=
   crlf ++ s2b "POST /p?q=1 HTTP/1.1" ++ [LF] ++ s2b "Host: example.com" ++ crlf ++
   s2b "X-Long: a" ++ crlf ++ s2b "  b" ++ crlf ++ s2b "Content-Length: 5" ++ crlf ++ crlf.
-Example C09_ex_guard_nontrivial :
+Example C09_ex_head_nontrivial :
   HeadComplete ex_head /\ crlf_terminated ex_head = true /\
   (exists hd, req_head_parse default_cfg (ex_head ++ s2b "hello") = HOk (hd, length ex_head)
               /\ content_length hd = 5%Z /\ fields hd = [(s2b "X-Long", s2b "a b")] /\ host hd = s2b "example.com").
 Proof. split; [vm_compute; reflexivity|]. split; [vm_compute; reflexivity|]. eexists. vm_compute. repeat split; reflexivity. Qed.
 
-(* the witnesses of the finding, and their CRLF counterpart *)
+(* the former request-side witness is now rejected from its own bytes, whatever follows; a bare-LF line before a
+   CRLF blank line is accepted; the response-side witness still waits *)
 Example C09_ex_witness :
-  HeadComplete bareLF_req /\ crlf_terminated bareLF_req = false /\
-  req_head_parse default_cfg bareLF_req = HNeedMore /\
-  (exists hd, req_head_parse default_cfg (bareLF_req ++ next_req) = HOk (hd, length bareLF_req)) /\
-  (exists hd, req_head_parse default_cfg (s2b "GET / HTTP/1.1" ++ crlf ++ s2b "Host: h" ++ crlf ++ crlf) = HOk (hd, 27)).
+  HeadComplete bareLF_req /\
+  req_head_parse default_cfg bareLF_req = HErr EBadBlockEnd /\
+  req_head_parse default_cfg (bareLF_req ++ next_req) = HErr EBadBlockEnd /\
+  (exists hd, req_head_parse default_cfg (s2b "GET / HTTP/1.1" ++ crlf ++ s2b "Host: h" ++ [LF] ++ crlf ++ crlf) = HOk (hd, 26)) /\
+  HeadComplete bareLF_resp /\ crlf_terminated bareLF_resp = false /\
+  resp_head_parse default_cfg bareLF_resp = HNeedMore /\
+  (exists hd, resp_head_parse default_cfg (bareLF_resp ++ some_body) = HOk (hd, length bareLF_resp)).
 Proof. vm_compute. repeat split; try reflexivity; eexists; reflexivity. Qed.
